@@ -238,8 +238,22 @@ impl GroupCommitQueue {
         &self,
         payload: CommitPayload,
     ) -> Result<u64, String> {
+        self.submit_and_wait_for_role(payload).map(|(batch_id, _)| batch_id)
+    }
+
+    /// Like [`submit_and_wait`](Self::submit_and_wait), but also tells the caller its role.
+    ///
+    /// `Ok((batch_id, true))`: the caller was elected flush leader; its commit is NOT yet
+    /// written and it must call `take_pending`, write the batch and then `complete_batch`
+    /// or `fail_batch`. `Ok((batch_id, false))`: the commit was already written and completed
+    /// by another leader (or the queue is disabled / the payload empty); the caller must not
+    /// take the pending batch, which may belong to a leader elected in the meantime.
+    pub fn submit_and_wait_for_role(
+        &self,
+        payload: CommitPayload,
+    ) -> Result<(u64, bool), String> {
         if !self.is_enabled() || payload.is_empty() {
-            return Ok(0);
+            return Ok((0, false));
         }
 
         let pending = {
@@ -262,9 +276,9 @@ impl GroupCommitQueue {
             pending
         };
 
-        self.wait_for_completion(&pending)?;
+        let is_leader = self.wait_for_completion(&pending)?;
 
-        Ok(pending.batch_id)
+        Ok((pending.batch_id, is_leader))
     }
 
     /// Submit a commit request without waiting (for async usage)
@@ -290,7 +304,9 @@ impl GroupCommitQueue {
         pending
     }
 
-    fn wait_for_completion(&self, pending: &PendingCommit) -> Result<(), String> {
+    /// `Ok(true)`: the caller was elected leader of the next flush. `Ok(false)`: the
+    /// commit was completed by another leader.
+    fn wait_for_completion(&self, pending: &PendingCommit) -> Result<bool, String> {
         // Use a generous timeout for the actual flush operation, as disk I/O can be slow
         // especially under load or with large batches. 10ms (old) was deemed too short.
         let timeout = Duration::from_secs(30);
@@ -308,7 +324,7 @@ impl GroupCommitQueue {
             if should_flush {
                 state.flush_in_progress = true;
                 drop(state);
-                return Ok(());
+                return Ok(true);
             } else {
                 let remaining = timeout.saturating_sub(start.elapsed());
                 if remaining.is_zero() {
@@ -321,7 +337,7 @@ impl GroupCommitQueue {
         if let Some(error) = pending.take_error() {
             Err(error)
         } else {
-            Ok(())
+            Ok(false)
         }
     }
 
